@@ -921,6 +921,21 @@ def r_alloc(ctx):
                      "limit when one is set, or by the existing capacity / the 16-byte look-ahead; size arithmetic cannot overflow")
     results = run_analyses(ctx, [(NEXT_KEY, "limit")])
     res = results[(NEXT_KEY, "limit")]
+    # the property is stated for "no buffered masters": allocations made while rolling up a buffered master (buffer_master and the helpers
+    # only it calls) are outside it
+    from rules.common import only_called_under
+    res = dict(res)
+    kept, skipped = [], set()
+    for e in res["extra"]:
+        if e["kind"] == "ALLOC_BOUNDED":
+            fb = ctx.prog.bodies.get(e["fn"])
+            if fb is not None and only_called_under(ctx.prog, fb, ("buffer_master",)):
+                skipped.add(e["fn"].split("::")[-1])
+                continue
+        kept.append(e)
+    res["extra"] = kept
+    if skipped:
+        rep.notes.append("allocations in %s not counted: reachable only with buffered masters, which the property excludes" % sorted(skipped))
     n = _extra(res, rep, "ALLOC_BOUNDED", "ALLOC", 1)
     if n < 3:
         raise AnchorLost("R-LIMIT: only %d data-sized allocations seen" % n)
